@@ -167,9 +167,10 @@ func VH_C11_Consumers() {
 	x.enterRound(1, 0)
 	all := uint64(1<<uint(n) - 1)
 
-	script := verifrt.Choose("script", 7)
+	script := verifrt.Choose("script", 8)
 	var nilRounds []uint32
 	committedA := false
+	committedR1 := false
 	switch script {
 	case 0: // votes grow within the round
 		x.vote(false, 1, 0, "A", 1, 1)
@@ -216,6 +217,26 @@ func VH_C11_Consumers() {
 		x.maybeRead()
 		committedA = true
 		verifrt.Reach("commit-delivered-to-possibly-stalled-consumers")
+	case 7: // round 0 ends with a nil quorum and round 1 commits block A, all of it possibly
+		// before either consumer reads: the nil precommits that justified leaving round 0 must
+		// still reach gossip (and the state machine, which sits in round 0) after the commit
+		x.vote(true, 1, 0, "", 7, 1)
+		nilRounds = []uint32{0}
+		x.maybeRead()
+		verifrt.Assume(verifrt.UFBool("hashok", vkit.Pack([]byte("A")), 1))
+		verifrt.Assume(e.keys[0].Verify([]byte{'P', 0, 1, 1, 'A'}, []byte("psA")))
+		phA1 := tmconsensus.ProposedHeader{
+			Header: tmconsensus.Header{Hash: []byte("A"), PrevBlockHash: []byte("g"), Height: 1,
+				ValidatorSet: e.vs, NextValidatorSet: e.vs, DataID: []byte("d"),
+				PrevCommitProof: tmconsensus.CommitProof{Proofs: map[string][]gcrypto.SparseSignature{}}},
+			Round: 1, ProposerPubKey: e.keys[0], Signature: []byte("psA"),
+		}
+		verifrt.Assert(e.m.HandleProposedHeader(e.ctx, phA1) == tmconsensus.HandleProposedHeaderAccepted, "C11:setup-header-accepted")
+		x.maybeRead()
+		x.vote(true, 1, 1, "A", 7, 2)
+		x.maybeRead()
+		committedR1 = true
+		verifrt.Reach("commit-in-the-round-after-a-nil-round")
 	case 5: // the state machine runs AHEAD of the mirror: round 0 has collected several view
 		// versions, the state machine's own timer moves it to round 1 (answered from the
 		// next-round view, which has seen nothing yet), then round 0 ends with a nil quorum, the
@@ -268,6 +289,11 @@ func VH_C11_Consumers() {
 		verifrt.Assert(okc && gc.version == c.Version, "C11:gossip:has-latest-committing-view-at-quiescence")
 		sc, oks := x.sm.last[[2]uint64{1, 0}]
 		verifrt.Assert(oks && sc.version == c.Version, "C11:sm:has-latest-view-of-its-round-at-quiescence")
+	}
+	if committedR1 {
+		var c tmconsensus.VersionedRoundView
+		verifrt.Assert(e.m.CommittingView(e.ctx, &c) == nil && c.Height == 1 && c.Round == 1 && v.Height == 2, "C11:setup-height-1-committed-in-round-1")
+		verifrt.Assert(x.gossip.sawPrecommits(1, 1, "A", all), "C11:gossip:commit-precommits-delivered")
 	}
 	for _, r := range nilRounds {
 		verifrt.Reach("nil-round-left")
